@@ -1273,6 +1273,8 @@ def _getElementsByTagName(self, tagname):
     # Look in attributes dictionary for document fragments as well
     if self.attributes and list(self.attributes.keys()):
         for item in list(self.attributes.values()):
+            if item is self.childNodes:
+                continue
             if getattr(item, 'tagName', None) in tagname:
                  output.append(item)
             if hasattr(item, 'getElementsByTagName'):
